@@ -101,3 +101,4 @@ def check(ctx):
     witness.run_witness(ctx, "c06_channels", ctx.prog.extract_info["target"])
     # dependency (seed C06-6): the block queues under the channels (read before release / commit)
     ctx.import_rules("C03", r"^spsc/(pop|bulk_pop)-read-then|^mpsc/take-then-commit|^mpsc/bulk-commit-equals-range|^mpsc/fast-bulk")
+    taken_waiter_is_woken(ctx, only=r"sync::(mpsc|spsc)::InnerQueue\.(to_wake|wait_co)$")
